@@ -120,4 +120,91 @@ theorem value_step {W : Nat} {bs pad : List Nat} (ctx : Ctx W bs pad) (hnum : Nu
     simp only [beq_iff_eq, h22, h5B, h7B, h74, h66, h6E, if_false, specNumTest, hn, Bool.false_eq_true]
     exact val_other hat h7B h5B (by simpa using hn) h74 h66 h6E h22
 
+theorem contOf_arr {f : Frame} (hf : f.isArr = true) : contOf f = Label.arrCont := by
+  unfold contOf; rw [hf]; rfl
+theorem contOf_obj {f : Frame} (hf : f.isArr = false) : contOf f = Label.objCont := by
+  unfold contOf; rw [hf]; rfl
+
+theorem elems_step {W : Nat} {bs pad : List Nat} (ctx : Ctx W bs pad) (hnum : NumberCorrectOn bs) (fuel : Nat)
+    (ihV : ValueSim W bs pad fuel) (ihE : ElemsSim W bs pad fuel) : ElemsSim W bs pad (fuel + 1) := by
+  intro s f rest p c dvals hf hat hgood hfuel
+  rw [Json.parseElems]
+  have hstep : step W s (.arrVal c) = valueSwitch W s c (contOf f) := by rw [contOf_arr hf]; rfl
+  have hV := ihV s f rest p c hat (by omega)
+  cases hv : Json.parseValue bs fuel p with
+  | error e =>
+    rw [hv] at hV
+    exact ErrT.step hstep hV
+  | ok x =>
+    obtain ⟨v, next⟩ := x
+    rw [hv] at hV
+    simp only
+    have hvp := (spec_progress hnum fuel p).1 v next hv
+    have hq := skipWs_ge bs (pos := next) hvp.2
+    rcases hV with ⟨k, s', node, c', ⟨cfg0, hcfg0, hreach⟩, hat', hgood', hpres, hk, hnl⟩ | ⟨hErr, hncap⟩
+    · -- the element has been pushed; `c'` is the token after it
+      have hreach1 : Reaches W (k + 1) (s, some (.arrVal c)) (s', some (.arrCont c')) := by
+        have := Reaches.step (by rw [hstep, hcfg0]) hreach
+        rwa [contOf_arr hf] at this
+      have ht5D := tok_test hat'.tok hat'.le 0x5D (by decide)
+      have ht2C := tok_test hat'.tok hat'.le 0x2C (by decide)
+      have hnp := hat.np_push hat'
+      have hgl : GoodList s' (f.items ++ [node]) (dvals ++ [v]) := (hgood.mono hpres).snoc hgood'
+      rcases arrCont_step (W := W) ctx.hL hat' hf with ⟨hc, hqL, s2, c2, hst, hat2, hpres2, hsax⟩ |
+          ⟨hc, hqL, cfg, hst, hland, hpres2⟩ | ⟨hc1, hc2, s3, hst, hfin⟩
+      · -- `,`
+        rw [if_neg (fun h => by have := ht5D.mp h; omega), if_pos (ht2C.mpr hc)]
+        have hq2 := skipWs_ge bs (pos := Json.skipWs bs bs.length next + 1) (by omega)
+        have hreach2 : Reaches W (k + 1 + 1) (s, some (.arrVal c)) (s2, some (.arrVal c2)) :=
+          hreach1.trans (Reaches.step hst (Reaches.refl _))
+        have hE := ihE s2 { f with items := f.items ++ [node] } rest _ c2 (dvals ++ [v]) hf hat2
+          (hgl.mono hpres2) (by omega)
+        cases hres : Json.parseElems bs fuel (Json.skipWs bs bs.length (Json.skipWs bs bs.length next + 1)) with
+        | error e =>
+          rw [hres] at hE
+          exact ErrT.prepend hreach2 hE (by omega)
+        | ok y =>
+          obtain ⟨vs, e⟩ := y
+          rw [hres] at hE
+          have hpe := (spec_progress hnum fuel _).2.1 vs e hres
+          rcases hE with ⟨k2, cfg, node2, hr2, hland, hg2, hp2, hk2, he⟩ | ⟨hErr, hncap⟩
+          · refine Or.inl ⟨k + 1 + 1 + k2, cfg, node2, hreach2.trans hr2, hland, ?_, (hpres.trans hpres2).trans hp2,
+              by omega, he⟩
+            simpa using hg2
+          · refine Or.inr ⟨ErrT.prepend hreach2 hErr (by omega), fun hcv => hncap ?_⟩
+            unfold CapE at hcv ⊢
+            rw [hsax, hnp.1, hnp.2]
+            omega
+      · -- `]`
+        rw [if_pos (ht5D.mpr hc)]
+        refine Or.inl ⟨k + 1 + 1, cfg, .arr (f.items ++ [node]), hreach1.trans (Reaches.step hst (Reaches.refl _)),
+          hland, GoodAt.arr (hgl.mono hpres2), hpres.trans hpres2, by omega, by omega⟩
+      · -- anything else
+        rw [if_neg (fun h => hc2 (ht5D.mp h)), if_neg (fun h => hc1 (ht2C.mp h))]
+        exact ⟨k + 1 + 1, s3, ⟨_, rfl, hreach1.trans (Reaches.step hst (Reaches.refl _))⟩, hfin, by omega⟩
+    · -- the stack was exhausted inside the element
+      have hE := ErrT.step hstep hErr
+      by_cases hb1 : (bs[Json.skipWs bs bs.length next]? == some 93) = true
+      · rw [if_pos hb1]
+        refine Or.inr ⟨hE, fun hcv => hncap ?_⟩
+        unfold CapE at hcv
+        unfold CapV
+        omega
+      · rw [if_neg hb1]
+        by_cases hb2 : (bs[Json.skipWs bs bs.length next]? == some 44) = true
+        · rw [if_pos hb2]
+          have hql := lt_of_get_some (beq_some_iff.mp hb2)
+          have hq2 := skipWs_ge bs (pos := Json.skipWs bs bs.length next + 1) (by omega)
+          cases hres : Json.parseElems bs fuel (Json.skipWs bs bs.length (Json.skipWs bs bs.length next + 1)) with
+          | error e => exact hE
+          | ok y =>
+            obtain ⟨vs, e⟩ := y
+            have hpe := (spec_progress hnum fuel _).2.1 vs e hres
+            refine Or.inr ⟨hE, fun hcv => hncap ?_⟩
+            unfold CapE at hcv
+            unfold CapV
+            omega
+        · rw [if_neg hb2]
+          exact hE
+
 end Sonic.Proofs.Parse
